@@ -230,7 +230,7 @@ func (w *World) execECDSA(q *ecdsaReq) *ecdsaOut {
 		rd = nil
 	default:
 		out.dev = kernel.NewDevice(q.dev)
-		rd = out.dev
+		rd = out.dev.Reader()
 	}
 	call := func() {
 		if q.reader == rdExplicitGlobal {
@@ -245,7 +245,7 @@ func (w *World) execECDSA(q *ecdsaReq) *ecdsaOut {
 	var po callOut
 	run := func() {
 		if q.reader == rdNilGlobal || q.reader == rdExplicitGlobal {
-			withGlobalRand(out.dev, func() { po = protect(call) })
+			withGlobalRand(out.dev.Reader(), func() { po = protect(call) })
 		} else {
 			po = protect(call)
 		}
@@ -256,6 +256,9 @@ func (w *World) execECDSA(q *ecdsaReq) *ecdsaOut {
 		kernel.OnFreshStack(run)
 	} else {
 		run()
+	}
+	if out.dev != nil {
+		out.dev.Settle()
 	}
 	out.panicked, out.panicMsg = po.panicked, po.panicMsg
 	return out
@@ -752,6 +755,10 @@ func (w *World) opVariation(step int) {
 		return
 	}
 	base := w.events[w.t.Choose("ops", "var.base", len(w.events))]
+	if w.t.Chance("ops", "var.latest", 1, 3) {
+		// back to back with the event it varies
+		base = w.events[len(w.events)-1]
+	}
 	q := &ecdsaReq{key: base.key, api: apiSignRaw, optsDesc: "-", hashSize: -1, encValid: true, digest: base.digest, reader: rdDevice}
 	if w.t.Chance("ops", "var.viaSign", 1, 3) {
 		if _, ok := hashForLen(len(base.digest)); ok {
@@ -1051,9 +1058,10 @@ func (w *World) runSchnorr(step, key int, msg []byte, cfg kernel.DevCfg, useNil 
 	}
 	run := func() {
 		if useNil {
-			withGlobalRand(dev, func() { po = protect(func() { sig, err = sg.sch.Sign(nil, msg, opts) }) })
+			withGlobalRand(dev.Reader(), func() { po = protect(func() { sig, err = sg.sch.Sign(nil, msg, opts) }) })
 		} else {
-			po = protect(func() { sig, err = sg.sch.Sign(dev, msg, opts) })
+			rd := dev.Reader()
+			po = protect(func() { sig, err = sg.sch.Sign(rd, msg, opts) })
 		}
 	}
 	if cfg.Helper {
@@ -1061,6 +1069,7 @@ func (w *World) runSchnorr(step, key int, msg []byte, cfg kernel.DevCfg, useNil 
 	} else {
 		run()
 	}
+	dev.Settle()
 	w.countDeviceFaults(dev)
 	desc := fmt.Sprintf("SchnorrSign key=%d msg=%x opts=%s rand=dev[%s] nil=%v", key, msg, optNames[oi], cfg.Summary(), useNil)
 	outcome := "ok"
